@@ -48,6 +48,7 @@ type c05Params struct {
 	dupDelay bool
 	apps     int // concurrent application goroutines sharing the outbound telegrams (default 1)
 	ackFails int // socket writes of the client's acknowledgements that may fail (transient error)
+	away     int // the application does not read Inbound during the first away ms (longer than every timeout of the client)
 }
 
 func c05Run(p c05Params) func() {
@@ -134,6 +135,9 @@ func c05Run(p c05Params) func() {
 			return
 		}
 		mc.GoEnv("reader", func() {
+			if p.away > 0 {
+				mc.Sleep(mc.Duration(p.away) * ms)
+			}
 			for {
 				m, ok := t.Inbound().Recv2()
 				if !ok {
@@ -212,7 +216,7 @@ func c05Run(p c05Params) func() {
 		for a := 0; a < apps+1; a++ {
 			done.Recv()
 		}
-		mc.Sleep(T + 3*R)
+		mc.Sleep(T + 3*R + mc.Duration(p.away)*ms)
 		t.Close()
 	}
 }
@@ -355,6 +359,9 @@ func init() {
 	register("both", &h.Scenario{Name: "C05-direct-1out-3in-ack-write-fails-F3", Prop: "C05", P: 0, F: 3, D: -1, Run: c05Run(af), Check: c05Oracle(af)})
 	g := c05Params{R: 100, T: 150, out: 4, in: 1, apps: 2}
 	register("both", &h.Scenario{Name: "C05-direct-2apps-4out-1in-loss-F1-P2", Prop: "C05", P: 2, F: 1, D: 2, Run: c05Run(g), Check: c05Oracle(g)})
+	// the application is away for longer than the response timeout while acknowledged telegrams wait
+	aw := c05Params{R: 100, T: 150, out: 1, in: 3, away: 1000}
+	register("both", &h.Scenario{Name: "C05-direct-1out-3in-application-away-1s-F2", Prop: "C05", P: 0, F: 2, D: -1, Run: c05Run(aw), Check: c05Oracle(aw)})
 	e := c05Params{R: 100, T: 350, out: 3, in: 3, dupDelay: true}
 	register("thorough", &h.Scenario{Name: "C05-direct-3out-3in-F3", Prop: "C05", P: 0, F: 3, D: -1, Run: c05Run(e), Check: c05Oracle(e)})
 	f := c05Params{R: 100, T: 150, out: 3, in: 2, dupDelay: true}
